@@ -142,6 +142,54 @@ func commandHasFlag(c cliCommand, name string) bool {
 	return found
 }
 
+// flagDefault returns the constant string Value of the named string flag of a command, if it has one.
+func flagDefault(c cliCommand, name string) (string, bool) {
+	val, has := "", false
+	ast.Inspect(c.Lit, func(n ast.Node) bool {
+		if _, ok := n.(*ast.FuncLit); ok {
+			return false
+		}
+		cl, ok := n.(*ast.CompositeLit)
+		if !ok || cl == c.Lit {
+			return true
+		}
+		tv, ok := c.Pkg.TypesInfo.Types[cl]
+		if !ok {
+			return true
+		}
+		nm := namedOf(tv.Type)
+		if nm == nil || !strings.HasSuffix(nm.Obj().Name(), "Flag") {
+			return true
+		}
+		isNamed, v, hv := false, "", false
+		for _, el := range cl.Elts {
+			kv, ok := el.(*ast.KeyValueExpr)
+			if !ok {
+				continue
+			}
+			k, _ := kv.Key.(*ast.Ident)
+			if k == nil {
+				continue
+			}
+			switch k.Name {
+			case "Name":
+				if s, ok := constString(c.Pkg.TypesInfo, kv.Value); ok && s == name {
+					isNamed = true
+				}
+			case "Value":
+				if s, ok := constString(c.Pkg.TypesInfo, kv.Value); ok {
+					v, hv = s, true
+				}
+			}
+		}
+		if isNamed && hv {
+			val, has = v, true
+		}
+		return true
+	})
+	return val, has
+}
+
 func isInsideFlag(c cliCommand, kv *ast.KeyValueExpr) bool {
 	inside := false
 	ast.Inspect(c.Lit, func(n ast.Node) bool {
@@ -316,6 +364,12 @@ func checkC19(p *core.Program, r *core.Report) {
 			continue
 		}
 		r.Count("mode-taking commands", 1)
+		// a missing --mode must stay distinguishable from a valid one: the flag may not default to an accepted value
+		if def, has := flagDefault(c, "mode"); has && accepted[def] {
+			r.Violation("O19.3", "main.cmd:"+c.Name+": --mode has no valid default", p.Pos(c.Lit.Pos()), "the mode flag defaults to %q: a missing mode silently selects a circuit instead of ending in a non-zero exit", def)
+		} else {
+			r.OK("O19.3", "main.cmd:"+c.Name+": --mode has no valid default", p.Pos(c.Lit.Pos()), "no default value among the accepted modes")
+		}
 		mv, at := modeVar(c.Action)
 		cn := "main.cmd:" + c.Name + ": invalid-mode paths"
 		if mv == nil {
